@@ -465,13 +465,19 @@ class Sym:
             ang = None
         if self.is_const():
             return Sym(self.v % m.v, self.t, ang)
-        k = z3.Int(CTX.fresh("k"))
-        if CTX.shadow is not None:
-            from .shadow import evalf
+        key = ("mod", self.v.get_id(), m.v)
+        if key not in CTX.sqrt_memo:
+            # % is a function: the same dividend term gets the same quotient variable
+            CTX.keep.append(self.v)
+            k = z3.Int(CTX.fresh("k"))
+            if CTX.shadow is not None:
+                from .shadow import evalf
 
-            CTX.shadow[str(k)] = math.floor(evalf(self.v, CTX.shadow) / float(m.v))
-        r = self.v - vz(m.v) * z3.ToReal(k)
-        CTX.cons.append(z3.And(r >= 0, r < vz(m.v)))
+                CTX.shadow[str(k)] = math.floor(evalf(self.v, CTX.shadow) / float(m.v))
+            r = self.v - vz(m.v) * z3.ToReal(k)
+            CTX.cons.append(z3.And(r >= 0, r < vz(m.v)))
+            CTX.sqrt_memo[key] = r
+        r = CTX.sqrt_memo[key]
         return Sym(r, self.t, ang)
 
     def __rmod__(self, o):
